@@ -172,8 +172,16 @@ def gen(ctx):
             for loc in ("-", "tr", "lt"):
                 for fn in ("up", "lo", "cap"):
                     if quick and r.random() > 0.5: continue
-                    body = r.choice([[x], [0x391, x], [0x61, x], [0x49, x]])
+                    body = r.choice([[x], [0x391, x], [0x61, x], [0x49, x], [0x391, x, r.choice(marks)], [0x61, x, r.choice(marks), r.choice(marks)]])
                     cases.append(["cf stale %s %s %s %d %s" % (hx(CR.enc(st)), fn, loc, r.choice([0, 4, 16]), hx(CR.enc(body)))])
+    # ... and with combining marks between the context-sensitive code point and the end of the string
+    for x in ctx_chars:
+        for m in marks:
+            for st in ([0x3B1], [0x61], [0x307]):
+                for fn in ("up", "lo", "cap"):
+                    if quick and r.random() > 0.5: continue
+                    body = [r.choice([0x391, 0x61]), x, m] + ([r.choice(marks)] if r.random() < 0.3 else [])
+                    cases.append(["cf stale %s %s %s %d %s" % (hx(CR.enc(st)), fn, r.choice(["-", "-", "tr", "lt"]), r.choice([0, 16]), hx(CR.enc(body)))])
     # ordinary Greek words: final sigma in word-final position
     for w in ("ΟΔΥΣΣΕΥΣ", "ΣΟΦΟΣ ΑΝΗΡ", "ΑΣ. ΒΣ, ΓΣ", "ΦΙΛΟΣ", "Σ", "ΑΣΑ ΣΑΣ", "ΛΌΓΟΣ"):
         cases.append(["cf lo - 4 " + hx(w.encode())])
